@@ -200,7 +200,7 @@ def _solver(code, f):
     return code, run
 
 
-def _arr(h, guess):
+def _arr(h, guess, as_list=False):
     # alternating ridge regression with a TT initial guess whose mode sizes are the numbers of basis functions
     d, m = 2, 4
     xdat = np.array([[h.rng.uniform(-1, 1) for _ in range(m)] for _ in range(d)])
@@ -211,7 +211,32 @@ def _arr(h, guess):
     g = guess if not h.cplx else None
     if g is None:
         return []
+    if as_list:          # one guess per output, handed over as a list (the same live object)
+        return reg.arr(xdat, ydat, basis, [g], repeats=1, progress=False)
     return [reg.arr(xdat, ydat, basis, g, repeats=1, progress=False)]
+
+
+def _new(code, f, kind):
+    """constructors: no operand, a fresh result"""
+    def run(h):
+        return [], [(f(h), kind)], None
+    return code, run
+
+
+def _rank_transpose_any(h):
+    # on trains with open boundary ranks: the u or v part of a fresh TT.svd (first resp. last rank > 1)
+    a = h.pick('vec')
+    t = h.pool[a].t
+    if h.order < 2:
+        return [a], [(t.rank_transpose(), 'misc')], None
+    u, _, v = t.svd(h.rng.randint(1, h.order - 1))
+    w = u if h.rng.random() < 0.5 else v
+    return [a], [(w.rank_transpose(), 'misc')], None
+
+
+def _tjm(h, A, x):
+    np.random.seed(h.rng.getrandbits(31))
+    return [ode.tjm_jump_process_tdvp(A, x, [[0.3 * np.eye(d)] for d in h.dims], [[0.5] for _ in h.dims], 0.01)]
 
 
 def steps(h):
@@ -276,6 +301,16 @@ OPS = {
     'adaptive': _solver(54, lambda h, A, x, b: ode.adaptive_step_size(A, x, b, 0.02, step_size_first=0.01, progress=False)[0]),
     'tdmd': _solver(55, lambda h, A, x, b: [getattr(tdmd, h.rng.choice(['tdmd_exact', 'tdmd_standard']))(x, b)[1]]),
     'arr': _solver(56, lambda h, A, x, b: _arr(h, x)),
+    'arr_list': _solver(56, lambda h, A, x, b: _arr(h, x, as_list=True)),
+    'tjm_jump': _solver(62, lambda h, A, x, b: _tjm(h, A, x)),
+    'rank_transpose_any': (8, _rank_transpose_any),
+    'new_eye': _new(61, lambda h: ttm.eye(list(h.dims)), 'op'),
+    'new_ones': _new(61, lambda h: ttm.ones(list(h.dims), [1] * h.order, ranks=h.rng.randint(1, 2)), 'vec'),
+    # (no tt.zeros: the zero tensor with a threshold is finding F14 -- rank-0 cores -- and LAPACK corrupts the heap on the empty
+    #  arrays that follow; decided under C04)
+    'new_unit': _new(61, lambda h: ttm.unit(list(h.dims), [0] * h.order), 'vec'),
+    'new_rand': _new(61, lambda h: ttm.rand(list(h.dims), [1] * h.order, ranks=2), 'vec'),
+    'new_uniform': _new(61, lambda h: ttm.uniform(list(h.dims), ranks=2), 'vec'),
     'residual': _solver(52, lambda h, A, x, b: (ttm.residual_error(A, x, b),) and []),
 }
 
